@@ -41,7 +41,8 @@ Observed ==
 
 \* how many calls the step's operation stands for
 Calls == CASE St.op \in {"csend", "ssend"} -> Len(St.a.acc)
-           [] St.op = "csendcdisc" -> Len(St.a.acc) + 1
+           [] St.op \in {"csendcdisc", "ssendsdisc"} -> Len(St.a.acc) + 1
+           [] St.op = "bothdisc" -> 2
            [] St.op = "tick" -> 0
            [] OTHER -> 1
 
@@ -53,6 +54,11 @@ Call ==
          [] St.op = "csendcdisc" -> IF b < Len(St.a.acc) THEN CSend
                                     ELSE IF C.up /\ C.ph = "up" THEN CDisconnect
                                     ELSE UNCHANGED vars
+         [] St.op = "ssendsdisc" -> IF b < Len(St.a.acc) THEN SSend
+                                    ELSE IF S.up THEN SDisconnect ELSE UNCHANGED vars
+         [] St.op = "bothdisc" -> IF b = 0
+                                  THEN (IF C.up /\ C.ph = "up" THEN CDisconnect ELSE UNCHANGED vars)
+                                  ELSE (IF S.up THEN SDisconnect ELSE UNCHANGED vars)
          [] St.op = "ssend"   -> SSend
          \* disconnect() of a side that is not connected does nothing
          [] St.op = "cdisc"   -> IF C.up /\ C.ph = "up" THEN CDisconnect ELSE UNCHANGED vars
